@@ -191,6 +191,7 @@ print(json.dumps(out))
         if not np.allclose(got, ref, atol=2e-6, equal_nan=False):
             ctx.fail("autocorr", dict(dtype=dt, config="first compiled use of the float path in a fresh process"), got.tolist(), ref.tolist(),
                      note="float data with NaN gaps: compiled (y,x,t) kernel vs the mean-filled Pearson value of its own source")
+    core.acc_dispatch(ctx, ['autocorr'])
     ctx.trusted += ["native model driver (Hdc/Model/Stats.lean at Float; x^-0.5 = libm pow)", "harness/props/c15.py oracle (NumPy mean-filled Pearson)"]
 
 
